@@ -222,13 +222,13 @@ Definition padded (T : otype) (d : bytes) : bytes := d ++ repeat 0 (Z.to_nat (pa
 Definition new_slice (T : otype) (repl : gmap) (offs : list Z) (data : bytes) (g : Z) : option bytes :=
   match lookup repl g with Some d => Some (padded T d) | None => old_slice offs data g end.
 
-Lemma build_loop_spec : forall n gid repl offs data T w os ds,
-  build_loop n gid repl offs data T w = inr (os, ds) ->
+Lemma build_loop_spec : forall n gid repl offs data T e_off w os ds,
+  build_loop n gid repl offs data T e_off w = inr (os, ds) ->
   gm_ok repl -> Forall (fun gd => gid <= fst gd) repl ->
   exists sls, length sls = n /\ ds = concat sls /\ os = psums w sls /\
     forall i s, nth_error sls i = Some s -> new_slice T repl offs data (gid + Z.of_nat i) = Some s.
 Proof.
-  induction n as [|n IH]; intros gid repl offs data T w os ds H Hok Hge.
+  induction n as [|n IH]; intros gid repl offs data T e_off w os ds H Hok Hge.
   - cbn in H. destruct (off_fits T w); [|discriminate]. inversion H; subst.
     exists []. repeat split; try reflexivity. intros [|i] s Hs; discriminate.
   - cbn [build_loop] in H.
@@ -237,12 +237,12 @@ Proof.
       | Some s, Some e =>
           match slice data s e with
           | Some sl => if off_fits T w
-                       then let? (os, ds) := build_loop n (gid + 1) repl offs data T (w + (e - s)) in
+                       then let? (os, ds) := build_loop n (gid + 1) repl offs data T e_off (w + (e - s)) in
                             inr (w :: os, sl ++ ds)
                        else inl (8, 0)
           | None => inl (2, 1)
           end
-      | _, _ => inl (6, 10)
+      | _, _ => inl e_off
       end = inr (os, ds) ->
       Forall (fun gd => gid + 1 <= fst gd) repl ->
       exists sls, length sls = S n /\ ds = concat sls /\ os = psums w sls /\
@@ -252,9 +252,9 @@ Proof.
       destruct (nthZ offs (gid + 1)) as [e0|] eqn:E2; [|discriminate].
       destruct (slice data s0 e0) as [sl|] eqn:E3; [|discriminate].
       destruct (off_fits T w); [|discriminate].
-      destruct (build_loop n (gid + 1) repl offs data T (w + (e0 - s0))) as [?|[os' ds']] eqn:E4; [discriminate|].
+      destruct (build_loop n (gid + 1) repl offs data T e_off (w + (e0 - s0))) as [?|[os' ds']] eqn:E4; [discriminate|].
       cbn in K. inversion K; subst.
-      destruct (IH _ _ _ _ _ _ _ _ E4 Hok Hge') as [sls [L [D [O P]]]].
+      destruct (IH _ _ _ _ _ _ _ _ _ E4 Hok Hge') as [sls [L [D [O P]]]].
       assert (Hlen : len sl = e0 - s0).
       { unfold slice in E3. destruct ((0 <=? s0) && (s0 <=? e0) && (e0 <=? len data)) eqn:G; [|discriminate].
         inversion E3. apply andb_prop in G. destruct G as [G G3]. apply andb_prop in G. destruct G as [G1 G2].
@@ -271,12 +271,12 @@ Proof.
     + apply Hkeep; [reflexivity | exact H | constructor].
     + destruct (Z.eqb_spec g gid).
       * subst g. destruct (off_fits T w); [|discriminate].
-        destruct (build_loop n (gid + 1) r' offs data T (w + len d + padding T (len d))) as [?|[os' ds']] eqn:E4; [discriminate|].
+        destruct (build_loop n (gid + 1) r' offs data T e_off (w + len d + padding T (len d))) as [?|[os' ds']] eqn:E4; [discriminate|].
         cbn in H. inversion H; subst.
         inversion Hok as [|? ? ? Hall Hok']; subst.
         assert (Hge' : Forall (fun gd => gid + 1 <= fst gd) r').
         { eapply Forall_impl; [|exact Hall]. cbn; intros; lia. }
-        destruct (IH _ _ _ _ _ _ _ _ E4 Hok' Hge') as [sls [L [D [O P]]]].
+        destruct (IH _ _ _ _ _ _ _ _ _ E4 Hok' Hge') as [sls [L [D [O P]]]].
         exists (padded T d :: sls). repeat split.
         -- cbn. now rewrite L.
         -- cbn. rewrite D. unfold padded. now rewrite <- app_assoc.
@@ -303,10 +303,10 @@ Proof.
            eapply Forall_impl; [|eassumption]. cbn; intros; lia.
 Qed.
 
-Lemma build_loop_fits : forall n gid repl offs data T w os ds,
-  build_loop n gid repl offs data T w = inr (os, ds) -> Forall (fun x => off_fits T x = true) os.
+Lemma build_loop_fits : forall n gid repl offs data T e_off w os ds,
+  build_loop n gid repl offs data T e_off w = inr (os, ds) -> Forall (fun x => off_fits T x = true) os.
 Proof.
-  induction n as [|n IH]; intros gid repl offs data T w os ds H.
+  induction n as [|n IH]; intros gid repl offs data T e_off w os ds H.
   - cbn in H. destruct (off_fits T w) eqn:F; [|discriminate]. inversion H; subst. repeat constructor. exact F.
   - cbn [build_loop] in H.
     assert (K : forall repl',
@@ -314,124 +314,27 @@ Proof.
       | Some s, Some e =>
           match slice data s e with
           | Some sl => if off_fits T w
-                       then let? (os, ds) := build_loop n (gid + 1) repl' offs data T (w + (e - s)) in
+                       then let? (os, ds) := build_loop n (gid + 1) repl' offs data T e_off (w + (e - s)) in
                             inr (w :: os, sl ++ ds)
                        else inl (8, 0)
           | None => inl (2, 1)
           end
-      | _, _ => inl (6, 10)
+      | _, _ => inl e_off
       end = inr (os, ds) -> Forall (fun x => off_fits T x = true) os).
     { intros repl' K.
       destruct (nthZ offs gid); [|discriminate]. destruct (nthZ offs (gid + 1)); [|discriminate].
       destruct (slice data z z0); [|discriminate]. destruct (off_fits T w) eqn:F; [|discriminate].
-      destruct (build_loop n (gid + 1) repl' offs data T (w + (z0 - z))) as [?|[os' ds']] eqn:E; [discriminate|].
+      destruct (build_loop n (gid + 1) repl' offs data T e_off (w + (z0 - z))) as [?|[os' ds']] eqn:E; [discriminate|].
       cbn in K. inversion K; subst. constructor; [exact F | eapply IH; eauto]. }
     destruct repl as [|[g d] r']; [eapply K; eauto|].
     destruct (g =? gid); [|eapply K; eauto].
     destruct (off_fits T w) eqn:F; [|discriminate].
-    destruct (build_loop n (gid + 1) r' offs data T (w + len d + padding T (len d))) as [?|[os' ds']] eqn:E; [discriminate|].
+    destruct (build_loop n (gid + 1) r' offs data T e_off (w + len d + padding T (len d))) as [?|[os' ds']] eqn:E; [discriminate|].
     cbn in H. inversion H; subst. constructor; [exact F | eapply IH; eauto].
 Qed.
 
-(* ---------- dedup ---------- *)
-Lemma dedup_inv views t m : dedup views t = inr m ->
-  exists items, mapM (fun v => gp_items v t) views = inr items /\ m = gm_insert_all (concat items) [].
-Proof.
-  unfold dedup. destruct (mapM (fun v => gp_items v t) views) as [e|items]; cbn; [discriminate|].
-  intros H; inversion H. eauto.
-Qed.
-Lemma dedup_ok views t m : dedup views t = inr m -> gm_ok m.
-Proof. intros H. apply dedup_inv in H. destruct H as [items [_ ->]]. apply gm_insert_all_ok. constructor. Qed.
-(* first patch wins: the data kept for a gid is the first one listed for it, in patch order *)
-Lemma dedup_first_wins views t m : dedup views t = inr m ->
-  exists items, mapM (fun v => gp_items v t) views = inr items /\
-                forall g, lookup m g = first_data (concat items) g.
-Proof.
-  intros H. apply dedup_inv in H. destruct H as [items [E ->]]. exists items. split; [exact E|].
-  intros g. rewrite gm_insert_all_lookup by constructor. reflexivity.
-Qed.
 
-(* ---------- patch_offset_array ---------- *)
-Lemma poa_inv views t offs data T avail maxgid T' os ds :
-  patch_offset_array views t offs data T avail maxgid = inr (T', os, ds) ->
-  exists m total, dedup views t = inr m /\ choose_type T avail total = inr T' /\
-    (last (map fst m) 0 <= maxgid) /\ ascending offs = true /\
-    build_loop (Z.to_nat (maxgid + 1)) 0 m offs data T' 0 = inr (os, ds).
-Proof.
-  unfold patch_offset_array. destruct (dedup views t) as [[? ?]|m]; [discriminate|].
-  destruct (retained_total _ offs 0) as [?|total0]; cbn [bind]; [discriminate|].
-  match goal with |- context [choose_type T avail ?tt] => set (total := tt) end.
-  destruct (choose_type T avail total) as [?|T0] eqn:C; cbn [bind]; [discriminate|].
-  destruct (last (map fst m) 0 >? maxgid) eqn:L; [discriminate|].
-  destruct (ascending offs) eqn:A; cbn [negb]; [|discriminate].
-  destruct (build_loop _ 0 m offs data T0 0) as [?|[os0 ds0]] eqn:B; cbn [bind]; [discriminate|].
-  intros H; inversion H; subst. exists m, total. repeat split; auto. lia.
-Qed.
-
-Lemma nthZ_nth {A} (l : list A) g : 0 <= g -> nthZ l g = nth_error l (Z.to_nat g).
-Proof. intros. unfold nthZ. destruct (Z.ltb_spec g 0); [lia | reflexivity]. Qed.
-
-Lemma poa_exact views t offs data T avail maxgid T' os ds :
-  patch_offset_array views t offs data T avail maxgid = inr (T', os, ds) -> 0 <= maxgid ->
-  exists m, dedup views t = inr m /\
-   (Forall (fun gd => 0 <= fst gd) m ->
-    forall g, 0 <= g <= maxgid ->
-      exists a b s, nthZ os g = Some a /\ nthZ os (g + 1) = Some b /\
-                    new_slice T' m offs data g = Some s /\ slice ds a b = Some s).
-Proof.
-  intros H Hm. apply poa_inv in H. destruct H as [m [total [D [_ [_ [_ B]]]]]].
-  exists m. split; [exact D|]. intros Hnn g Hg.
-  destruct (build_loop_spec _ _ _ _ _ _ _ _ _ B (dedup_ok _ _ _ D) Hnn) as [sls [L [-> [-> P]]]].
-  assert (Hi : (Z.to_nat g < length sls)%nat) by lia.
-  destruct (nth_error sls (Z.to_nat g)) as [s|] eqn:Es; [|apply nth_error_None in Es; lia].
-  assert (Ha : exists a, nth_error (psums 0 sls) (Z.to_nat g) = Some a).
-  { destruct (nth_error (psums 0 sls) (Z.to_nat g)) eqn:E; [eauto|].
-    apply nth_error_None in E. rewrite psums_length in E. exfalso. clear - Hi E. unfold bytes in *. lia. }
-  assert (Hb : exists b, nth_error (psums 0 sls) (S (Z.to_nat g)) = Some b).
-  { destruct (nth_error (psums 0 sls) (S (Z.to_nat g))) eqn:E; [eauto|].
-    apply nth_error_None in E. rewrite psums_length in E. exfalso. clear - Hi E. unfold bytes in *. lia. }
-  destruct Ha as [a Ha], Hb as [b Hb]. exists a, b, s.
-  rewrite !nthZ_nth by lia. replace (Z.to_nat (g + 1)) with (S (Z.to_nat g)) by lia.
-  repeat split; auto.
-  - specialize (P _ _ Es). rewrite Z2Nat.id in P by lia. exact P.
-  - pose proof (psums_slice sls 0 _ a b s Ha Hb Es) as Q. now rewrite !Z.sub_0_r in Q.
-Qed.
-
-Lemma poa_offsets views t offs data T avail maxgid T' os ds :
-  patch_offset_array views t offs data T avail maxgid = inr (T', os, ds) -> 0 <= maxgid ->
-  (forall m, dedup views t = inr m -> Forall (fun gd => 0 <= fst gd) m) ->
-  ascending os = true /\ len os = maxgid + 2 /\ nthZ os 0 = Some 0 /\ last os 0 = len ds /\
-  Forall (fun x => off_fits T' x = true) os.
-Proof.
-  intros H Hm Hnn. apply poa_inv in H. destruct H as [m [total [D [_ [_ [_ B]]]]]].
-  pose proof (build_loop_fits _ _ _ _ _ _ _ _ _ B) as F.
-  destruct (build_loop_spec _ _ _ _ _ _ _ _ _ B (dedup_ok _ _ _ D) (Hnn _ D)) as [sls [L [-> [-> P]]]].
-  repeat split.
-  - apply psums_ascending.
-  - unfold len. rewrite psums_length. unfold bytes in *. rewrite L. lia.
-  - unfold nthZ. cbn. apply psums_hd.
-  - rewrite psums_last. lia.
-  - exact F.
-Qed.
-
-(* the upgrade decision *)
-Lemma choose_type_spec T avail total T' : choose_type T avail total = inr T' ->
-  (total <= ot_max T /\ T' = T) \/
-  (ot_max T < total /\ total <= ot_max T' /\
-   exists pre post, avail = pre ++ T' :: post /\ Forall (fun c => ot_max c < total) pre).
-Proof.
-  unfold choose_type. destruct (Z.gtb_spec total (ot_max T)).
-  - destruct (find (fun c => total <=? ot_max c) avail) as [c|] eqn:F; [|discriminate].
-    intros E; inversion E; subst. right. split; [lia|].
-    clear E. induction avail as [|x r IH]; [discriminate|]. cbn in F.
-    destruct (Z.leb_spec total (ot_max x)).
-    + inversion F; subst. split; [lia|]. exists [], r. split; [reflexivity | constructor].
-    + destruct (IH F) as [L [pre [post [-> Hp]]]]. split; [exact L|].
-      exists (x :: pre), post. split; [reflexivity|]. constructor; [lia | exact Hp].
-  - intros E; inversion E; subst. left. split; [assumption | reflexivity].
-Qed.
-
-(* ---------- permutations ---------- *)
+(* ---------- mapM ---------- *)
 Lemma mapM_cons_inv {A B} (f : A -> res B) x l ys : mapM f (x :: l) = inr ys ->
   exists y ys0, f x = inr y /\ mapM f l = inr ys0 /\ ys = y :: ys0.
 Proof.
@@ -442,434 +345,7 @@ Lemma mapM_cons_intro {A B} (f : A -> res B) x l y ys0 : f x = inr y -> mapM f l
   mapM f (x :: l) = inr (y :: ys0).
 Proof. intros H1 H2. cbn. rewrite H1. cbn. rewrite H2. reflexivity. Qed.
 
-Lemma mapM_perm {A B} (f : A -> res B) l l' : Permutation l l' -> forall ys, mapM f l = inr ys ->
-  exists ys', mapM f l' = inr ys' /\ Permutation ys ys'.
-Proof.
-  induction 1 as [|x l l' HP IH|x y l|l l' l'' H1 IH1 H2 IH2]; intros ys H.
-  - exists ys. split; [exact H|]. cbn in H. inversion H. constructor.
-  - apply mapM_cons_inv in H. destruct H as [y [ys0 [Fx [M ->]]]].
-    destruct (IH _ M) as [ys' [M' P]]. exists (y :: ys'). split; [now apply mapM_cons_intro | now constructor].
-  - apply mapM_cons_inv in H. destruct H as [b [ys0 [Fy [M ->]]]].
-    apply mapM_cons_inv in M. destruct M as [a [ys1 [Fx [M ->]]]].
-    exists (a :: b :: ys1). split; [|constructor].
-    apply mapM_cons_intro; [exact Fx|]. now apply mapM_cons_intro.
-  - destruct (IH1 _ H) as [ys' [M' P']]. destruct (IH2 _ M') as [ys'' [M'' P'']].
-    exists ys''. split; [exact M''|]. eapply Permutation_trans; eauto.
-Qed.
 
-Lemma Permutation_concat {A} (l l' : list (list A)) : Permutation l l' -> Permutation (concat l) (concat l').
-Proof.
-  induction 1; cbn.
-  - constructor.
-  - now apply Permutation_app_head.
-  - rewrite !app_assoc. apply Permutation_app_tail. apply Permutation_app_comm.
-  - eapply Permutation_trans; eauto.
-Qed.
+Lemma nthZ_nth {A} (l : list A) g : 0 <= g -> nthZ l g = nth_error l (Z.to_nat g).
+Proof. intros. unfold nthZ. destruct (Z.ltb_spec g 0); [lia | reflexivity]. Qed.
 
-Lemma forallb_perm {A} (p : A -> bool) l l' : Permutation l l' -> forallb p l = forallb p l'.
-Proof.
-  induction 1; cbn; [reflexivity | now rewrite IHPermutation | destruct (p x), (p y); reflexivity | congruence].
-Qed.
-Lemma existsb_perm {A} (p : A -> bool) l l' : Permutation l l' -> existsb p l = existsb p l'.
-Proof.
-  induction 1; cbn; [reflexivity | now rewrite IHPermutation | destruct (p x), (p y); reflexivity | congruence].
-Qed.
-
-(* items that agree on shared glyph ids *)
-Definition items_agree (its : list (Z * bytes)) : Prop :=
-  forall g d1 d2, In (g, d1) its -> In (g, d2) its -> d1 = d2.
-
-Lemma first_data_perm its its' g : Permutation its its' -> items_agree its ->
-  first_data its' g = first_data its g.
-Proof.
-  intros P A.
-  destruct (first_data its g) as [d|] eqn:E1; destruct (first_data its' g) as [d'|] eqn:E2; try reflexivity.
-  - apply first_data_in in E1, E2. f_equal. apply (A g); [|exact E1].
-    eapply Permutation_in; [apply Permutation_sym; exact P | exact E2].
-  - apply first_data_in in E1. exfalso. eapply first_data_none; [exact E2|].
-    eapply Permutation_in; [exact P | exact E1].
-  - apply first_data_in in E2. exfalso. eapply first_data_none; [exact E1|].
-    eapply Permutation_in; [apply Permutation_sym; exact P | exact E2].
-Qed.
-
-Lemma gm_insert_all_perm its its' : Permutation its its' -> items_agree its ->
-  gm_insert_all its' [] = gm_insert_all its [].
-Proof.
-  intros P A. apply gm_ext; try (apply gm_insert_all_ok; constructor).
-  intros x. rewrite !gm_insert_all_lookup by constructor. cbn. now apply first_data_perm.
-Qed.
-
-(* the patches' data for table t agree wherever two of them list the same glyph *)
-Definition views_agree (t : Z) (views : list gp) : Prop :=
-  forall items, mapM (fun v => gp_items v t) views = inr items -> items_agree (concat items).
-
-Lemma dedup_perm t views views' m : Permutation views views' -> views_agree t views ->
-  dedup views t = inr m -> dedup views' t = inr m.
-Proof.
-  intros P A D. apply dedup_inv in D. destruct D as [items [M ->]].
-  destruct (mapM_perm _ _ _ P _ M) as [items' [M' P']].
-  unfold dedup. rewrite M'. cbn. f_equal.
-  apply gm_insert_all_perm; [now apply Permutation_concat | now apply A].
-Qed.
-
-Lemma poa_perm t views views' offs data T avail maxgid r : Permutation views views' -> views_agree t views ->
-  patch_offset_array views t offs data T avail maxgid = inr r ->
-  patch_offset_array views' t offs data T avail maxgid = inr r.
-Proof.
-  intros P A H. unfold patch_offset_array in *.
-  destruct (dedup views t) as [[? ?]|m] eqn:D; [discriminate|].
-  rewrite (dedup_perm _ _ _ _ P A D). exact H.
-Qed.
-
-Lemma patch_glyf_perm f views views' maxgid r : Permutation views views' -> views_agree T_glyf views ->
-  patch_glyf f views maxgid = inr r -> patch_glyf f views' maxgid = inr r.
-Proof.
-  intros P A H. unfold patch_glyf in *.
-  destruct (lookup f T_glyf) as [glyf|]; [|discriminate].
-  destruct (read_loca f) as [[T offs]|]; [|discriminate].
-  destruct (patch_offset_array views T_glyf offs glyf T [T] maxgid) as [?|x] eqn:E; [discriminate|].
-  rewrite (poa_perm _ _ _ _ _ _ _ _ _ P A E). exact H.
-Qed.
-
-(* applied bits *)
-Lemma set_bit_comm : forall d i b j c,
-  match set_bit d i b with Some d1 => set_bit d1 j c | None => None end =
-  match set_bit d j c with Some d2 => set_bit d2 i b | None => None end.
-Proof.
-  induction d as [|x r IH]; intros [|i] b [|j] c; cbn; try reflexivity.
-  - do 2 f_equal. rewrite <- !Z.lor_assoc. f_equal. apply Z.lor_comm.
-  - destruct (set_bit r j c); reflexivity.
-  - destruct (set_bit r i b); reflexivity.
-  - specialize (IH i b j c).
-    destruct (set_bit r i b) as [r1|]; destruct (set_bit r j c) as [r2|]; cbn in *;
-      [now rewrite IH | now rewrite IH | now rewrite <- IH | reflexivity].
-Qed.
-
-Lemma mark_applied_comm st x y :
-  (let? s := mark_applied st x in mark_applied s y) = (let? s := mark_applied st y in mark_applied s x).
-Proof.
-  destruct st as [ift iftx]. unfold mark_applied.
-  destruct (pi_tbl x =? 0), (pi_tbl y =? 0); destruct ift as [a|], iftx as [b|]; cbn; try reflexivity;
-  try (pose proof (set_bit_comm a (Z.to_nat (pi_bit x / 8)) (pi_bit x mod 8) (Z.to_nat (pi_bit y / 8)) (pi_bit y mod 8)) as C);
-  try (pose proof (set_bit_comm b (Z.to_nat (pi_bit x / 8)) (pi_bit x mod 8) (Z.to_nat (pi_bit y / 8)) (pi_bit y mod 8)) as C');
-  repeat match goal with
-         | |- context [set_bit ?d ?i ?c] => destruct (set_bit d i c) eqn:?; cbn
-         end; try reflexivity; try congruence;
-  repeat match goal with
-         | H : context [set_bit ?d ?i ?c] |- _ => destruct (set_bit d i c) eqn:?; cbn in *
-         end; try reflexivity; try congruence.
-Qed.
-
-Lemma mark_all_perm l l' : Permutation l l' -> forall st, mark_all st l = mark_all st l'.
-Proof.
-  induction 1 as [|x l l' HP IH|x y l|l l' l'' H1 IH1 H2 IH2]; intros st.
-  - reflexivity.
-  - cbn. destruct (mark_applied st x); cbn; [reflexivity | apply IH].
-  - cbn. pose proof (mark_applied_comm st y x) as C.
-    destruct (mark_applied st y) as [e1|s1] eqn:E1; destruct (mark_applied st x) as [e2|s2] eqn:E2; cbn in *.
-    + (* both fail: the only error is InternalError *)
-      unfold mark_applied in E1, E2. destruct st as [a b].
-      repeat match goal with
-             | H : context [if ?c then _ else _] |- _ => destruct c
-             | H : context [match ?o with Some _ => _ | None => _ end] |- _ => destruct o; cbn in H
-             end; try discriminate; inversion E1; inversion E2; reflexivity.
-    + rewrite <- C. reflexivity.
-    + rewrite C. reflexivity.
-    + destruct (mark_applied s1 x) as [?|s3]; destruct (mark_applied s2 y) as [?|s4]; cbn; try discriminate;
-        inversion C; subst; reflexivity.
-  - rewrite IH1. apply IH2.
-Qed.
-
-Theorem gk_core_perm f (ivs ivs' : list (pinfo * gp)) F :
-  Permutation ivs ivs' -> views_agree T_glyf (map snd ivs) ->
-  gk_core f (map fst ivs) (map snd ivs) = inr F -> gk_core f (map fst ivs') (map snd ivs') = inr F.
-Proof.
-  intros P A H.
-  pose proof (Permutation_map fst P) as Pi. pose proof (Permutation_map snd P) as Pv.
-  unfold gk_core, lists_tag in *.
-  rewrite <- (forallb_perm _ _ _ Pv). rewrite <- !(existsb_perm _ _ _ Pv).
-  rewrite <- (mark_all_perm _ _ Pi).
-  destruct (lookup f T_maxp) as [mx|]; [|cbn in H; discriminate].
-  destruct (uN_at 2 mx 4) as [ng|]; [|cbn in H; discriminate]. cbn [bind] in *.
-  destruct (ng =? 0); [discriminate|].
-  destruct (forallb (fun v => strictly_ascending (gp_tables v)) (map snd ivs)); cbn [negb] in *; [|discriminate].
-  destruct (existsb (fun v => memZ T_CFF (gp_tables v)) (map snd ivs)); [discriminate|].
-  destruct (existsb (fun v => memZ T_CFF2 (gp_tables v)) (map snd ivs)); [discriminate|].
-  destruct (existsb (fun v => memZ T_glyf (gp_tables v)) (map snd ivs)); [|exact H].
-  destruct (patch_glyf f (map snd ivs) (ng - 1)) as [?|r] eqn:G; [discriminate|].
-  rewrite (patch_glyf_perm _ _ _ _ _ Pv A G). exact H.
-Qed.
-
-(* ---------- font maps ---------- *)
-Lemma lookup_fb_add t d f x : lookup (fb_add t d f) x = if x =? t then Some d else lookup f x.
-Proof.
-  induction f as [|[t' d'] r IH]; cbn.
-  - destruct (x =? t); reflexivity.
-  - destruct (Z.ltb_spec t t').
-    + cbn. destruct (Z.eqb_spec x t); reflexivity.
-    + destruct (Z.eqb_spec t t').
-      * subst. cbn. destruct (Z.eqb_spec x t'); reflexivity.
-      * cbn. rewrite IH. destruct (Z.eqb_spec x t'); [|reflexivity].
-        destruct (Z.eqb_spec x t); [lia | reflexivity].
-Qed.
-
-Lemma memZ_true x l : memZ x l = true <-> In x l.
-Proof.
-  unfold memZ. rewrite existsb_exists. split.
-  - intros [y [Hy E]]. apply Z.eqb_eq in E. now subst.
-  - intros H. exists x. split; [exact H | apply Z.eqb_refl].
-Qed.
-
-Lemma lookup_not_in {A} (f : list (Z * A)) x : ~ In x (map fst f) -> lookup f x = None.
-Proof.
-  induction f as [|[t d] r IH]; cbn; [reflexivity|]. intros H.
-  destruct (Z.eqb_spec x t); [exfalso; apply H; now left|]. apply IH. tauto.
-Qed.
-
-Lemma lookup_copy_unprocessed f processed : NoDup (map fst f) -> forall fb x,
-  lookup (copy_unprocessed f processed fb) x =
-  if memZ x processed then lookup fb x
-  else match lookup f x with Some d => Some d | None => lookup fb x end.
-Proof.
-  unfold copy_unprocessed. induction f as [|[t d] r IH]; intros ND fb x; cbn [fold_left fst snd lookup].
-  - destruct (memZ x processed); reflexivity.
-  - inversion ND as [|? ? Hn ND']; subst. rewrite IH by assumption.
-    destruct (memZ x processed) eqn:Mx.
-    + destruct (memZ t processed) eqn:Mt; [reflexivity|]. rewrite lookup_fb_add.
-      destruct (Z.eqb_spec x t); [subst; congruence | reflexivity].
-    + destruct (Z.eqb_spec x t).
-      * subst. rewrite (lookup_not_in r t Hn). rewrite Mx. rewrite lookup_fb_add, Z.eqb_refl. reflexivity.
-      * destruct (memZ t processed); [reflexivity|]. rewrite lookup_fb_add.
-        destruct (Z.eqb_spec x t); [lia | reflexivity].
-Qed.
-
-(* every table other than glyf / loca / IFT / IFTX is byte-identical after glyph keyed application,
-   none appears and none disappears *)
-Lemma gk_core_other_tables f infos views F x : NoDup (map fst f) ->
-  gk_core f infos views = inr F ->
-  x <> T_glyf -> x <> T_loca -> x <> T_IFT -> x <> T_IFTX -> lookup F x = lookup f x.
-Proof.
-  intros ND H N1 N2 N3 N4. unfold gk_core in H.
-  destruct (lookup f T_maxp) as [mx|]; [|cbn in H; discriminate].
-  destruct (uN_at 2 mx 4) as [ng|]; [|cbn in H; discriminate]. cbn [bind] in H.
-  destruct (ng =? 0); [discriminate|].
-  destruct (forallb _ views); cbn [negb] in H; [|discriminate].
-  destruct (lists_tag views T_CFF); [discriminate|].
-  destruct (lists_tag views T_CFF2); [discriminate|].
-  assert (K : forall processed fb,
-     (forall y, In y processed -> y = T_glyf \/ y = T_loca \/ y = T_IFT \/ y = T_IFTX) ->
-     lookup fb x = None ->
-     (if lists_tag views T_gvar
-      then match lookup f T_gvar with Some _ => inl (98, 3) | None => inl (6, 17) end
-      else let? (ift', iftx') := mark_all (lookup f T_IFT, lookup f T_IFTX) infos in
-           let fb := match ift' with Some d => fb_add T_IFT d fb | None => fb end in
-           let fb := match iftx' with Some d => fb_add T_IFTX d fb | None => fb end in
-           inr (copy_unprocessed f processed fb)) = inr F -> lookup F x = lookup f x).
-  { intros processed fb Hp Hfb K.
-    destruct (lists_tag views T_gvar); [destruct (lookup f T_gvar); discriminate|].
-    destruct (mark_all _ infos) as [?|[ift' iftx']]; cbn [bind] in K; [discriminate|].
-    inversion K; subst F. rewrite lookup_copy_unprocessed by assumption.
-    destruct (memZ x processed) eqn:M.
-    { apply memZ_true in M. apply Hp in M. lia. }
-    destruct (lookup f x); [reflexivity|].
-    destruct iftx'; destruct ift'; rewrite ?lookup_fb_add;
-      repeat match goal with |- context [x =? ?t] => destruct (Z.eqb_spec x t); [lia|] end; exact Hfb. }
-  destruct (lists_tag views T_glyf).
-  - destruct (patch_glyf f views (ng - 1)) as [?|[g' l']]; cbn [bind] in H; [discriminate|].
-    eapply K; [| |exact H].
-    + cbn. intros y [<-|[<-|[<-|[<-|[]]]]]; auto.
-    + rewrite !lookup_fb_add.
-      destruct (Z.eqb_spec x T_loca); [lia|]. destruct (Z.eqb_spec x T_glyf); [lia|]. reflexivity.
-  - cbn [bind] in H. eapply K; [| |exact H].
-    + cbn. intros y [<-|[<-|[]]]; auto.
-    + reflexivity.
-Qed.
-
-(* ---------- bookkeeping ---------- *)
-Lemma apply_next_error_leaves_bookkeeping dec f inv noninv st e st' :
-  apply_next dec f inv noninv st = (inl e, st') -> st' = st.
-Proof.
-  assert (K : apply_non_invalidating dec f noninv st = (inl e, st') -> st' = st).
-  { unfold apply_non_invalidating. destruct (accumulate st noninv) as [?|[|a acc]].
-    - intros H; now inversion H.
-    - intros H; now inversion H.
-    - destruct (apply_glyph_keyed_patches dec f (a :: acc)); intros H; inversion H; reflexivity. }
-  unfold apply_next. destruct inv as [p|]; [|exact K].
-  destruct (lookup st (pi_uri p)) as [[data|]|]; [| exact K | intros H; now inversion H].
-  destruct (apply_table_keyed_patch dec f p data); intros H; inversion H; reflexivity.
-Qed.
-
-(* on success exactly the applied URIs are flipped: an invalidating patch flips only its own URI,
-   otherwise every non-invalidating URI of the group present in the map becomes Applied *)
-Lemma apply_next_success_flips dec f inv noninv st F st' :
-  apply_next dec f inv noninv st = (inr F, st') ->
-  (exists p, inv = Some p /\ (exists d, lookup st (pi_uri p) = Some (Some d)) /\ st' = set_applied st (pi_uri p)) \/
-  st' = fold_left (fun s i => set_applied s (pi_uri i)) noninv st.
-Proof.
-  assert (K : apply_non_invalidating dec f noninv st = (inr F, st') ->
-              st' = fold_left (fun s i => set_applied s (pi_uri i)) noninv st).
-  { unfold apply_non_invalidating. destruct (accumulate st noninv) as [?|[|a acc]]; try (intros H; now inversion H).
-    destruct (apply_glyph_keyed_patches dec f (a :: acc)); intros H; inversion H; reflexivity. }
-  unfold apply_next. destruct inv as [p|]; [|intros H; right; auto].
-  destruct (lookup st (pi_uri p)) as [[data|]|] eqn:L; [| intros H; right; auto | intros H; now inversion H].
-  destruct (apply_table_keyed_patch dec f p data); intros H; inversion H. left. exists p. eauto.
-Qed.
-
-Lemma set_applied_other st u x : x <> u -> lookup (set_applied st u) x = lookup st x.
-Proof.
-  intros N. induction st as [|[k v] r IH]; cbn; [reflexivity|].
-  destruct (Z.eqb_spec k u); cbn; destruct (Z.eqb_spec x k); try reflexivity; try lia; exact IH.
-Qed.
-
-(* ---------- table keyed ---------- *)
-Fixpoint tk_first (es : list (res tk_entry)) (x : Z) : option tk_entry :=
-  match es with
-  | [] => None
-  | inl _ :: _ => None
-  | inr (t, fl, ml, s) :: r => if x =? t then Some (t, fl, ml, s) else tk_first r x
-  end.
-
-Lemma memZ_false x l : memZ x l = false <-> ~ In x l.
-Proof.
-  rewrite <- memZ_true. destruct (memZ x l); split; intros H; congruence.
-Qed.
-
-Lemma tk_fold_spec dec f : forall es k processed fb processed' fb',
-  tk_fold dec f es k processed fb = inr (processed', fb') ->
-  (forall x, In x processed -> lookup fb' x = lookup fb x /\ In x processed') /\
-  (forall x, ~ In x processed ->
-     match tk_first es x with
-     | None => lookup fb' x = lookup fb x /\ ~ In x processed'
-     | Some (t, fl, ml, s) =>
-         In x processed' /\
-         if Z.testbit fl 1 then lookup fb' x = lookup fb x
-         else exists k' out, dec k' s (if Z.testbit fl 0 then None else lookup f x) ml = inr out /\
-                             lookup fb' x = Some out
-     end).
-Proof.
-  induction es as [|[e|[[[t fl] ml] s]] r IH]; intros k processed fb processed' fb' H.
-  - cbn in H. inversion H; subst. split; intros; cbn; auto.
-  - discriminate.
-  - cbn [tk_fold] in H. destruct (memZ t processed) eqn:M.
-    + destruct (IH _ _ _ _ _ H) as [I1 I2]. split; [exact I1|].
-      intros x Hx. cbn [tk_first]. apply memZ_true in M.
-      destruct (Z.eqb_spec x t); [subst; contradiction | now apply I2].
-    + apply memZ_false in M.
-      assert (Step : forall k2 fb2,
-        tk_fold dec f r k2 (t :: processed) fb2 = inr (processed', fb') ->
-        (forall x, x <> t -> lookup fb2 x = lookup fb x) ->
-        (if Z.testbit fl 1 then lookup fb2 t = lookup fb t
-         else exists k' out, dec k' s (if Z.testbit fl 0 then None else lookup f t) ml = inr out /\
-                             lookup fb2 t = Some out) ->
-        (forall x, In x processed -> lookup fb' x = lookup fb x /\ In x processed') /\
-        (forall x, ~ In x processed ->
-           match tk_first (inr (t, fl, ml, s) :: r) x with
-           | None => lookup fb' x = lookup fb x /\ ~ In x processed'
-           | Some (t0, fl0, ml0, s0) =>
-               In x processed' /\
-               if Z.testbit fl0 1 then lookup fb' x = lookup fb x
-               else exists k' out, dec k' s0 (if Z.testbit fl0 0 then None else lookup f x) ml0 = inr out /\
-                                   lookup fb' x = Some out
-           end)).
-      { intros k2 fb2 H2 Hother Ht. destruct (IH _ _ _ _ _ H2) as [I1 I2]. split.
-        - intros x Hx. destruct (I1 x (or_intror Hx)) as [A B]. split; [|exact B].
-          rewrite A. apply Hother. intros ->. contradiction.
-        - intros x Hx. cbn [tk_first]. destruct (Z.eqb_spec x t).
-          + subst x. destruct (I1 t (or_introl eq_refl)) as [A B]. split; [exact B|].
-            destruct (Z.testbit fl 1); [now rewrite A|].
-            destruct Ht as [k' [out [D L]]]. exists k', out. split; [exact D | now rewrite A].
-          + assert (Hx' : ~ In x (t :: processed)) by (intros [E|E]; [now subst | contradiction]).
-            specialize (I2 x Hx'). destruct (tk_first r x) as [[[[t0 fl0] ml0] s0]|].
-            * destruct I2 as [A B]. split; [exact A|]. rewrite <- (Hother x n).
-              destruct (Z.testbit fl0 1); [exact B | exact B].
-            * destruct I2 as [A B]. split; [|exact B]. now rewrite A, Hother. }
-      destruct (Z.testbit fl 1) eqn:Drop.
-      * apply (Step _ _ H); [reflexivity | reflexivity].
-      * assert (Dec : forall dict, dict = (if Z.testbit fl 0 then None else lookup f t) ->
-           match dec k s dict ml with
-           | inl kind => inl (6, 10 + kind)
-           | inr out => tk_fold dec f r (S k) (t :: processed) (fb_add t out fb)
-           end = inr (processed', fb') ->
-           (forall x, In x processed -> lookup fb' x = lookup fb x /\ In x processed') /\
-           (forall x, ~ In x processed ->
-              match tk_first (inr (t, fl, ml, s) :: r) x with
-              | None => lookup fb' x = lookup fb x /\ ~ In x processed'
-              | Some (t0, fl0, ml0, s0) =>
-                  In x processed' /\
-                  if Z.testbit fl0 1 then lookup fb' x = lookup fb x
-                  else exists k' out, dec k' s0 (if Z.testbit fl0 0 then None else lookup f x) ml0 = inr out /\
-                                      lookup fb' x = Some out
-              end)).
-        { intros dict Hd K. destruct (dec k s dict ml) as [?|out] eqn:D; [discriminate|].
-          apply (Step _ _ K).
-          - intros x Hx. rewrite lookup_fb_add. destruct (Z.eqb_spec x t); [contradiction | reflexivity].
-          - exists k, out. split; [now rewrite <- Hd | now rewrite lookup_fb_add, Z.eqb_refl]. }
-        destruct (lookup f t) as [base|] eqn:B; destruct (Z.testbit fl 0) eqn:R; try discriminate;
-          eapply Dec; try exact H; reflexivity.
-Qed.
-
-Lemma tk_entries_no_inl dec f es k p fb r : tk_fold dec f es k p fb = inr r -> True.
-Proof. trivial. Qed.
-
-(* table keyed application: exactly what the patch says *)
-Lemma apply_table_keyed_exact dec f fmt offs p F : NoDup (map fst f) ->
-  apply_table_keyed dec f fmt offs p = inr F ->
-  forall x,
-    match tk_first (tk_entries p offs) x with
-    | None => lookup F x = lookup f x                                  (* unlisted: byte-identical *)
-    | Some (t, fl, ml, s) =>
-        if Z.testbit fl 1 then lookup F x = None                        (* dropped: absent *)
-        else exists k out, dec k s (if Z.testbit fl 0 then None else lookup f x) ml = inr out /\
-                           lookup F x = Some out                        (* replacement / diff result *)
-    end.
-Proof.
-  intros ND H x. unfold apply_table_keyed in H.
-  destruct (fmt =? T_iftk); cbn [negb] in H; [|discriminate].
-  destruct (tk_fold dec f (tk_entries p offs) 0 [] []) as [?|[processed fb]] eqn:E; cbn [bind] in H; [discriminate|].
-  inversion H; subst F. rewrite lookup_copy_unprocessed by assumption.
-  destruct (tk_fold_spec _ _ _ _ _ _ _ _ E) as [_ I2]. specialize (I2 x (fun K => K)).
-  destruct (tk_first (tk_entries p offs) x) as [[[[t fl] ml] s]|].
-  - destruct I2 as [A B]. apply memZ_true in A. rewrite A.
-    destruct (Z.testbit fl 1); [exact B | exact B].
-  - destruct I2 as [A B]. apply memZ_false in B. rewrite B. rewrite A. cbn.
-    destruct (lookup f x); reflexivity.
-Qed.
-
-(* a compatibility id mismatch is reported before any decoder call: whatever the decoder does *)
-Lemma tk_incompatible_no_decode f info p cid :
-  font_compat_id f (pi_tbl info) = inr cid ->
-  (bytes_eqb cid (pi_compat info) = false \/
-   exists fmt pcid offs, tk_header p = inr (fmt, pcid, offs) /\ bytes_eqb pcid cid = false) ->
-  forall dec, apply_table_keyed_patch dec f info p = inl (4, 0).
-Proof.
-  intros C H dec. unfold apply_table_keyed_patch. rewrite C. cbn [bind].
-  destruct H as [H|[fmt [pcid [offs [Hh Hc]]]]].
-  - rewrite H. reflexivity.
-  - destruct (bytes_eqb cid (pi_compat info)); [|reflexivity]. cbn [negb].
-    rewrite Hh. cbn [bind]. rewrite Hc. reflexivity.
-Qed.
-
-(* ---------- applied bits ---------- *)
-Lemma set_bit_spec : forall d i b d', set_bit d i b = Some d' ->
-  length d' = length d /\
-  forall k, nth_error d' k =
-            if Nat.eqb k i then option_map (fun x => Z.lor x (Z.shiftl 1 b)) (nth_error d k) else nth_error d k.
-Proof.
-  induction d as [|x r IH]; intros i b d' H; [destruct i; discriminate|].
-  destruct i; cbn in H.
-  - inversion H; subst. split; [reflexivity|]. intros [|k]; reflexivity.
-  - destruct (set_bit r i b) as [r'|] eqn:E; [|discriminate]. cbn in H. inversion H; subst.
-    destruct (IH _ _ _ E) as [L N]. split; [cbn; now rewrite L|].
-    intros [|k]; [reflexivity|]. cbn. apply N.
-Qed.
-
-Lemma testbit_or_mask x b j : 0 <= b -> 0 <= j ->
-  Z.testbit (Z.lor x (Z.shiftl 1 b)) j = Z.testbit x j || (j =? b).
-Proof.
-  intros Hb Hj. rewrite Z.lor_spec, Z.shiftl_spec by lia. f_equal.
-  destruct (Z.eqb_spec j b).
-  - subst. now rewrite Z.sub_diag.
-  - destruct (Z.ltb_spec j b).
-    + now rewrite Z.testbit_neg_r by lia.
-    + apply Z.bits_above_log2; [lia|]. cbn. lia.
-Qed.
